@@ -85,6 +85,26 @@ def run(ctx):
             nerr_m = max(abs(float(numpy.linalg.norm(numpy.asarray(v[i]).reshape(-1))) - 1.0) for i in range(nroots))
             if cluster_unresolved(exact, w, nroots, res, nerr_m):
                 sig = "davidson:near-degenerate-cluster-not-resolved"
+            elif own_guess is not None and skipped_lower_root(exact, w, nroots, res, nerr_m):
+                # accurate eigenpairs of H that are not the lowest ones, from caller-supplied random guesses: the Ritz
+                # value was captured by a higher eigenvalue and the stopping test (change of the Ritz value) fired there
+                # - the recorded finding - unless no guess set reaches the skipped root
+                reached = 0
+                for rep_ in range(1, 41):
+                    if reached or REPEATS["left"] <= 0:
+                        break
+                    REPEATS["left"] -= 1
+                    gr = numpy.random.RandomState((ctx.seed * 7 + 1 + 104729 * rep_ + case) % (2 ** 31))
+                    g2 = [gr.randn(dim, 1) for _ in range(2 * nroots)]
+                    try:
+                        w2, _ = davidson.davidsonliu(H, nroots, guess_vecs=g2, epsilon=1e-8)
+                        if float(numpy.abs(numpy.sort(numpy.asarray(w2).real) - exact[:nroots]).max()) <= 1e-6:
+                            reached += 1
+                    except Exception:
+                        pass
+                ctx.count(f"skipped-root:matrix:repeats-that-reach-it={reached}")
+                if reached > 0:
+                    sig = "davidson:near-degenerate-cluster-not-resolved"
             ctx.disagree(sig, f"eigenvalue error {err:.2e}, residual/normalisation {res:.2e} (lowest exact {exact[:nroots]}, got {w})", desc)
     # ---- corpus of minimised past failures (runs first on every tier) ---------------------------------------
     import json
